@@ -17,6 +17,6 @@ reg(id="CAES",
         "hand transcription of FIPS-197, SP 800-38A CTR, RFC 4493 and TS 33.401 B.1.3/B.2.3 (CAES/Spec.v), validated by the published vectors (Examples)",
         "independent Go reference AES/EEA2/EIA2 inside the harness (expected values of the direct oracle)"],
     assumptions=["keys are 16 octets (Go type [16]byte); COUNT < 2^32; payload lengths fit Go's int (< 2^63) for the equality with 128-EEA2 (64-bit counter field)",
-                 "NEA1/NEA3/NIA1/NIA3 enter the wrapper theorems as Section hypotheses (keystream-function interface / 4-octet MAC), to be discharged from the SNOW 3G and ZUC parts"],
+                 "NEA1/NEA3/NIA1/NIA3 enter the wrapper theorems as Section hypotheses (stream_iface / mac_iface on a downward-closed length domain dom inside 8*len < 2^32); they are discharged from the SNOW 3G and ZUC parts in coq/C08/Glue.v with dom n := 8*n < 2^32 - 31 (Props/C06.v, C07.v, C08.v)"],
     exhaustive=True,
     explanation="Theorems (for every block cipher E with 16-octet blocks, instantiated with FIPS-197 AES): NEA2 = 128-EEA2, NIA2 = 128-EIA2 (4 octets), CTR laws (length, involution, prefix, keystream independence), NASEncrypt/NASMacCalculate dispatch, validation, NULL algorithm, lifted laws, MAC length, totality. Correspondence replays implementation behaviour on the model; direct oracle checks the laws and the expected values on the implementation.")
